@@ -290,6 +290,12 @@ func (p LinearPacer) Pace(elapsed time.Duration, hits uint64) (time.Duration, bo
 
 	rate := p.Rate(elapsed)
 	interval := math.Round(1e9 / rate)
+	if rate > 0 && interval < 1 {
+		// More than two hits per nanosecond: an interval rounded down to
+		// zero would release every hit at once. One nanosecond is the finest
+		// pace there is.
+		interval = 1
+	}
 
 	if n := uint64(interval); n != 0 && math.MaxInt64/n < hits {
 		// We would overflow wait if we continued, so stop the attack.
